@@ -110,7 +110,12 @@ def reconcile(pid, tier, repo_root, seed, ctx, err):
     state = {'primary': None, 'pname': None, 'failing': set(), 'cleared': {}}
 
     def clean_for(c, r):
-        return not [f for f in split_findings(c)[0] if f.rule == r] and [o for o in c.obligations if o[0] == r and o[2]]
+        if [f for f in split_findings(c)[0] if f.rule == r]:
+            return False
+        if [o for o in c.obligations if o[0] == r and o[2]]:
+            return True
+        # a rule that never records a held obligation (it only reports): clean when the source run shows none either
+        return not [o for o in ctx.obligations if o[0] == r and o[2]] and r in getattr(c, 'rules', {r: 1})
 
     def absorb(name, c, e):
         if e is not None:
